@@ -7,7 +7,7 @@
 //!    may overwrite (another process / a foreign file), flushes and loads;
 //!  * "concurrent" cases run several writer threads and writer processes flushing to one path while a
 //!    reader keeps loading it.
-use ant_bootstrap::{BootstrapAddr, BootstrapCacheConfig, BootstrapCacheStore};
+use ant_bootstrap::{BootstrapAddr, BootstrapCacheConfig, BootstrapCacheStore, PeersArgs};
 use libp2p::multiaddr::Protocol;
 use libp2p::{Multiaddr, PeerId};
 use serde_json::{json, Value};
@@ -335,10 +335,124 @@ fn concurrent(case: &Value) -> Value {
            "written_peers": (threads + procs) * rounds * per_round, "temp_leftovers": leftovers})
 }
 
+/// every file under `root` with a hash of its content
+fn snapshot(root: &Path) -> std::collections::BTreeMap<String, u64> {
+    use std::hash::{Hash, Hasher};
+    let mut out = std::collections::BTreeMap::new();
+    let mut todo = vec![root.to_path_buf()];
+    while let Some(d) = todo.pop() {
+        for e in std::fs::read_dir(&d).into_iter().flatten().flatten() {
+            let p = e.path();
+            if p.is_dir() {
+                todo.push(p);
+            } else if let Ok(b) = std::fs::read(&p) {
+                let mut h = std::collections::hash_map::DefaultHasher::new();
+                b.hash(&mut h);
+                out.insert(p.strip_prefix(root).unwrap().to_string_lossy().to_string(), h.finish());
+            }
+        }
+    }
+    out
+}
+
+fn changed(a: &std::collections::BTreeMap<String, u64>, b: &std::collections::BTreeMap<String, u64>) -> Vec<String> {
+    let mut v: Vec<String> = b.iter().filter(|(k, h)| a.get(*k) != Some(*h)).map(|(k, _)| k.clone()).collect();
+    v.extend(a.keys().filter(|k| !b.contains_key(*k)).cloned());
+    v.sort();
+    v
+}
+
+/// Every way to construct a store, then add / flush, then a store constructed the same way loads the file back.
+/// All paths live in a private temp tree: <root>/cfg/cache.json (the config's path), <root>/custom/<cache file>
+/// (bootstrap_cache_dir), <root>/xdg/autonomi/bootstrap_cache/<cache file> (default_config through XDG_DATA_HOME).
+fn ctor(case: &Value) -> Value {
+    let dir = tempfile::tempdir().unwrap();
+    let root = dir.path().to_path_buf();
+    std::env::set_var("XDG_DATA_HOME", root.join("xdg"));
+    std::env::set_var("HOME", root.join("home"));
+    std::env::remove_var("ANT_PEERS");
+    let file_name = ant_bootstrap::config::cache_file_name();
+    let cfg_path = root.join("cfg").join("cache.json");
+    let custom_dir = root.join("custom");
+    let label = |p: &Path| -> String {
+        let rel = p.strip_prefix(&root).map(|r| r.to_string_lossy().to_string()).unwrap_or_else(|_| p.to_string_lossy().to_string());
+        if rel == "cfg/cache.json" {
+            "config".into()
+        } else if rel == format!("custom/{file_name}") {
+            "custom".into()
+        } else if rel == format!("xdg/autonomi/bootstrap_cache/{file_name}") {
+            "default".into()
+        } else {
+            rel
+        }
+    };
+    let base_secs = SystemTime::now().duration_since(UNIX_EPOCH).unwrap().as_secs();
+    let base_ns = base_secs as i128 * 1_000_000_000;
+    let use_cfg = case["config"].as_bool().unwrap();
+    let use_custom = case["custom_dir"].as_bool().unwrap();
+    let build = |first: bool| -> ant_bootstrap::Result<BootstrapCacheStore> {
+        let cfg = if use_cfg { Some(BootstrapCacheConfig::empty().with_cache_path(&cfg_path)) } else { None };
+        match case["ctor"].as_str().unwrap() {
+            "new" => BootstrapCacheStore::new(cfg.unwrap_or(BootstrapCacheConfig::default_config()?)),
+            _ => {
+                let pa = PeersArgs {
+                    first,
+                    local: case["local"].as_bool().unwrap(),
+                    disable_mainnet_contacts: case["disable_mainnet_contacts"].as_bool().unwrap_or(false),
+                    ignore_cache: case["ignore_cache"].as_bool().unwrap_or(false),
+                    bootstrap_cache_dir: if use_custom { Some(custom_dir.clone()) } else { None },
+                    ..Default::default()
+                };
+                BootstrapCacheStore::new_from_peers_args(&pa, cfg)
+            }
+        }
+    };
+    // a cache file with one recent peer is already present at every candidate location
+    std::fs::create_dir_all(cfg_path.parent().unwrap()).unwrap();
+    std::fs::create_dir_all(&custom_dir).unwrap();
+    std::fs::create_dir_all(root.join("xdg/autonomi/bootstrap_cache")).unwrap();
+    for (i, p) in [cfg_path.clone(), custom_dir.join(&file_name), root.join("xdg/autonomi/bootstrap_cache").join(&file_name)].iter().enumerate() {
+        let text = case["seed_files"][i].as_str().unwrap();
+        std::fs::write(p, substitute_now(text, base_secs)).unwrap();
+    }
+    let snap0 = snapshot(&root);
+    let first = case["first"].as_bool().unwrap_or(false);
+    let mut store = match build(first) {
+        Ok(s) => s,
+        Err(e) => return json!({"build_err": e.to_string()}),
+    };
+    let snap1 = snapshot(&root);
+    let path_after_build = label(&store.config().cache_file_path);
+    let disabled = store.config().disable_cache_writing;
+    for a in case["adds"].as_array().unwrap() {
+        store.add_addr(a.as_str().unwrap().parse().unwrap());
+    }
+    let mem = dump_store(&store, base_ns);
+    let flush_ok = store.sync_and_flush_to_disk(case["cleanup"].as_bool().unwrap_or(true)).is_ok();
+    let snap2 = snapshot(&root);
+    // a second store, constructed the same way (without `first`, which clears the file by design), reads back
+    let reload = match build(false) {
+        Ok(s2) => match BootstrapCacheStore::load_cache_data(s2.config()) {
+            Ok(d) => json!({"ok": true, "path": label(&s2.config().cache_file_path), "peers": dump_data!(d, base_ns)}),
+            Err(e) => json!({"ok": false, "err": e.to_string(), "path": label(&s2.config().cache_file_path)}),
+        },
+        Err(e) => json!({"ok": false, "err": e.to_string()}),
+    };
+    let files: Vec<Value> = ["cfg/cache.json".to_string(), format!("custom/{file_name}"), format!("xdg/autonomi/bootstrap_cache/{file_name}")]
+        .iter()
+        .map(|rel| json!({"label": label(&root.join(rel)), "content": dump_file(&root.join(rel), base_ns)}))
+        .collect();
+    json!({"base_secs": base_secs, "config_path": path_after_build, "disabled": disabled,
+           "changed_by_build": changed(&snap0, &snap1).iter().map(|p| label(&root.join(p))).collect::<Vec<_>>(),
+           "changed_by_flush": changed(&snap1, &snap2).iter().map(|p| label(&root.join(p))).collect::<Vec<_>>(),
+           "mem": mem, "flush_ok": flush_ok, "reload": reload, "files_after_flush": files})
+}
+
 fn run(case: &Value) -> Value {
     match case["op"].as_str().unwrap() {
         "history" => history(case),
         "concurrent" => concurrent(case),
+        "ctor" => ctor(case),
         // the Multiaddr parser as an oracle: protocol lists of the given texts
         "parse" => Value::Array(
             case["addrs"].as_array().unwrap().iter()
